@@ -113,6 +113,13 @@ TNext ==
 TSpec == TInit /\ [][TNext]_tvars
 
 Holds == bad = ""
+\* one invariant per clause, so that TLC's message names the clause
+TBytesRoundTrip == bad # "BytesRoundTrip"
+TEachPageListedOnce == bad # "EachPageListedOnce"
+TNoForeignPage == bad # "NoForeignPage"
+TPagesConserved == bad # "PagesConserved"
+TNoOverrun == bad # "NoOverrun"
+TNoCrash == bad # "NoCrash"
 
 \* <<"VERIF", lines explained, lines, {<<"drift", line>>}>>
 Post == PrintT(<<"VERIF", TLCGet(1) - 1, Len(Tr), TLCGet(2)>>)
